@@ -15,9 +15,9 @@ git apply "$mdir/patch.diff" || { echo "$id $(basename $mdir): PATCH DOES NOT AP
 go build $(go list ./... | grep -v cmd/gmrtd-reader) >"$out/build.txt" 2>&1 || { echo "$id $(basename $mdir): BUILD FAILS"; git checkout -q -- .; exit 2; }
 go test -vet=off -count=1 $(go list ./... | grep -v cmd/gmrtd-reader) >"$out/suite_with.txt" 2>&1; suite=$?
 cp "$mdir"/*_test.go "$pkg"/ 2>/dev/null
-go test -vet=off -count=1 "./$pkg/" >"$out/demo_with.txt" 2>&1; dw=$?
+go test $DEMO_FLAGS -vet=off -count=1 "./$pkg/" >"$out/demo_with.txt" 2>&1; dw=$?
 git apply -R "$mdir/patch.diff"
-go test -vet=off -count=1 "./$pkg/" >"$out/demo_without.txt" 2>&1; dwo=$?
+go test $DEMO_FLAGS -vet=off -count=1 "./$pkg/" >"$out/demo_without.txt" 2>&1; dwo=$?
 git clean -fdq
 git apply "$mdir/patch.diff"
 res=""
